@@ -94,6 +94,13 @@ func crosstalkScenario(s *Sim, params map[string]string) {
 		// stale-response fault is only meaningful for the Transport's
 		// one-exchange-at-a-time connections
 		cl.F.StaleResponse = 0
+		// the connection multiplexes by correlation id: answers may come in
+		// any order
+		cl.OutOfOrder = t.Intn("cfg", 3) == 0
+		if t.Intn("cfg", 2) == 0 {
+			// goroutines may lose the CPU between any two steps of an exchange
+			s.EnableStalls(Pick(t, "cfg", 20, 100), 3*time.Millisecond)
+		}
 		// (a) one kafka.Conn shared by all actors, bound to a partition
 		ti := t.Intn("cfg", ntop)
 		tname := fmt.Sprintf("x%d", ti)
